@@ -1,4 +1,4 @@
-import TextxVerif.Proofs.RepoLookup
+import TextxVerif.Proofs.RepoEntry
 /-!
 # C17 — multi-file models load each file once and share element identity
 
@@ -13,6 +13,12 @@ expansions, repeated statements —, any definitions, references and faults) and
 every well-formed state between loads (`WF`: what any history of loads leaves
 behind, see `C17_identity` / `C18_clean` for preservation).  Only property
 theorems and non-vacuity examples live here; lemmas are in `Proofs/Repo*.lean`.
+
+The other entry points of a load (TextxVerif/RepoEntry.lean) are covered by the
+second half: `metamodel.model_from_str(text, file_name=f)` *is* `loadMain`
+(`internal_model_from_file` with the text handed in: the entry of `f` in the read
+log is the parse of the string), a main model without file name is `loadStr`
+(`C17_str_*`), `GlobalRepo.load_models_in_model_repo` is `preload` (`C17_preload`).
 -/
 namespace Repo
 
@@ -30,7 +36,7 @@ is reachable from the main file through non-cached files. -/
 theorem C17_once (S : Spec) (fuel : Nat) (st0 : St) (f : File) (hwf : WF st0) :
     ∃ new, (loadMain S fuel st0 f).1.reads = new ++ st0.reads ∧ new.Nodup ∧
       (∀ y ∈ new, y ∉ (base S st0).all.keys) ∧ (∀ y ∈ new, Reach S (base S st0).all.keys f y) := by
-  obtain ⟨new, h1, h2, h3, h4, _⟩ := loadMain_reads S fuel st0 f (hwf.base S)
+  obtain ⟨new, h1, h2, h3, h4, _, _⟩ := loadMain_reads S fuel st0 f (hwf.base S)
     (show loadMain S fuel st0 f = ((loadMain S fuel st0 f).1, (loadMain S fuel st0 f).2.1, (loadMain S fuel st0 f).2.2) from rfl)
   exact ⟨new, h1, h2, h3, h4⟩
 
@@ -40,7 +46,7 @@ files), each one once. -/
 theorem C17_closure (S : Spec) (fuel : Nat) (st0 : St) (f : File) (st' : St) (j : Inst) (hwf : WF st0)
     (h : loadMain S fuel st0 f = (st', .ok, j)) :
     ∃ new, st'.reads = new ++ st0.reads ∧ new.Nodup ∧ ∀ y, y ∈ new ↔ Reach S (base S st0).all.keys f y := by
-  obtain ⟨new, h1, h2, _, h4, h5⟩ := loadMain_reads S fuel st0 f (hwf.base S) h
+  obtain ⟨new, h1, h2, _, h4, h5, _⟩ := loadMain_reads S fuel st0 f (hwf.base S) h
   exact ⟨new, h1, h2, fun y => ⟨h4 y, h5 rfl y⟩⟩
 
 /-- **Identity.**  After a successful load the state is well formed again and
@@ -58,44 +64,9 @@ theorem C17_identity (S : Spec) (fuel : Nat) (st0 : St) (f : File) (st' : St) (j
         x = x') ∧
       (∀ m, st0.next ≤ m → m ∈ included st' j → ∀ x n, Target.elem x n ∈ st'.tgt m →
         x = m ∨ (st'.fileOf x, x) ∈ st'.all) := by
-  have hok := loadMain_ok S fuel st0 f (hwf.base S) h
-  have hloc : ∀ m ∈ included st' j, ∀ e ∈ st'.loc m, e ∈ st'.all := by
-    intro m hm e he
-    have hm' := hm
-    unfold included at hm'
-    split at hm'
-    · obtain ⟨e', he', hem⟩ := List.mem_map.1 hm'
-      exact hok.wf.locIn e' he' e (by rw [hem]; exact he)
-    · rcases List.mem_append.1 hm' with h' | h'
-      · obtain ⟨e', he', hem⟩ := List.mem_map.1 h'
-        exact hok.wf.locIn e' he' e (by rw [hem]; exact he)
-      · have : m = j := by simpa using h'
-        rw [this] at he
-        exact hok.locJ e he
-  refine ⟨hok.wf, hok.fileJ, ?_, ?_, ?_⟩
-  · intro m hm e he
-    have := hloc m hm e he
-    exact ⟨Dict.get?_of_mem _ _ _ hok.wf.nodup this, hok.wf.file e this⟩
-  · intro m m' g x x' hm hm' hx hx'
-    have h1 := Dict.get?_of_mem _ _ _ hok.wf.nodup (hloc m hm _ hx)
-    have h2 := Dict.get?_of_mem _ _ _ hok.wf.nodup (hloc m' hm' _ hx')
-    rw [h1] at h2
-    exact Option.some.inj h2
-  · intro m hge hm x n ht
-    rw [← base_next S st0] at hge
-    have htm := hok.tgt m hge hm
-    have : some (Target.elem x n) ∈ resolveAll S st' m := by
-      rw [← htm]; exact List.mem_map_of_mem ht
-    unfold resolveAll at this
-    obtain ⟨n', _, hn'⟩ := List.mem_map.1 this
-    obtain ⟨_, hx, _⟩ := lookup_elem S st' m n' x n hn'
-    rcases hx with hx | ⟨e, he, hex⟩
-    · exact Or.inl hx
-    · have hin := hloc m hm e he
-      have hf := hok.wf.file e hin
-      right
-      rw [← hex, hf]
-      exact hin
+  have := (loadMain_ok S fuel st0 f (hwf.base S) h).toLoad.identity
+  rw [base_next] at this
+  exact this
 
 /-- **Lookup order.**  Every reference of every model constructed in a
 successful load is resolved (1) in the model itself, else (2) in the first file
@@ -104,38 +75,9 @@ the name, else (3) in the first builtin model defining it. -/
 theorem C17_lookup_order (S : Spec) (fuel : Nat) (st0 : St) (f : File) (st' : St) (j : Inst) (hwf : WF st0)
     (h : loadMain S fuel st0 f = (st', .ok, j)) (m : Inst) (hge : st0.next ≤ m) (hm : m ∈ included st' j) :
     (st'.tgt m).map some = (S.refs (st'.fileOf m)).map (lookupSpec S st' m) := by
-  have hok := loadMain_ok S fuel st0 f (hwf.base S) h
-  have hge' : (base S st0).next ≤ m := by rw [base_next]; exact hge
-  have hlt : m < st'.next := by
-    have hm' := hm
-    unfold included at hm'
-    split at hm'
-    · obtain ⟨e', he', hem⟩ := List.mem_map.1 hm'
-      rw [← hem]; exact hok.wf.lt e' he'
-    · rcases List.mem_append.1 hm' with h' | h'
-      · obtain ⟨e', he', hem⟩ := List.mem_map.1 h'
-        rw [← hem]; exact hok.wf.lt e' he'
-      · have : m = j := by simpa using h'
-        rw [this]; exact hok.ltJ
-  have hloc : ∀ e ∈ st'.loc m, e ∈ st'.all := by
-    intro e he
-    have hm' := hm
-    unfold included at hm'
-    split at hm'
-    · obtain ⟨e', he', hem⟩ := List.mem_map.1 hm'
-      exact hok.wf.locIn e' he' e (by rw [hem]; exact he)
-    · rcases List.mem_append.1 hm' with h' | h'
-      · obtain ⟨e', he', hem⟩ := List.mem_map.1 h'
-        exact hok.wf.locIn e' he' e (by rw [hem]; exact he)
-      · have : m = j := by simpa using h'
-        rw [this] at he
-        exact hok.locJ e he
-  have hd := loadMain_loc S fuel st0 f (hwf.base S) h m hge hlt
-  rw [hok.tgt m hge' hm]
-  unfold resolveAll
-  apply List.map_congr_left
-  intro n _
-  exact lookup_eq_spec S st' m n hloc hok.wf.nodup hd
+  have hok := (loadMain_ok S fuel st0 f (hwf.base S) h).toLoad
+  exact hok.lookupOrder m (by rw [base_next]; exact hge) hm
+    (loadMain_loc S fuel st0 f (hwf.base S) h m hge (hok.lt m hm))
 
 /-- **Cached reload.**  With a global repository, loading a file again after a
 successful load returns the very same model, opens no file and changes
@@ -151,6 +93,76 @@ theorem C17_cached_reload (S S' : Spec) (fuel fuel' : Nat) (st0 : St) (f : File)
   rw [loadMain_unfold]
   have hb : base S' st' = st' := by simp [base, hg']
   simp only [hb, hg', hhas, Bool.and_self, if_true, hm, Bool.false_eq_true, if_false, hget, Option.getD_some]
+
+/-! ## the other entry points: a main model given as a string, the explicit pre-load -/
+
+/-- The name invented for a model without file name (`anonymous{k}`, smallest unused `k`) is not a key
+of the dict: the hypothesis `ha` of the `C17_str_*` theorems holds for the name textX picks. -/
+theorem C17_str_name_fresh (a0 : File) (d : Dict) : anonKey a0 d ∉ d.keys := anonKey_fresh a0 d
+
+/-- **A string model is loaded like a file.**  A main model without file name that issues at least one
+`load_model` call (or whose metamodel has no global repository) goes through exactly the states of
+`model_from_file` on the invented name: the shared dict is handed over to it and to every model it
+imports in the same way, whichever entry point is used first on an empty repository. -/
+theorem C17_str_as_file (S : Spec) (fuel : Nat) (st0 : St) (a : File) (ha : a ∉ (base S st0).all.keys)
+    (h : S.glob = false ∨ S.calls a ≠ []) : loadStr S fuel st0 a = loadMain S fuel st0 a :=
+  loadStr_eq_loadMain S fuel st0 a ha h
+
+theorem C17_str_terminates (S : Spec) (U : List File) (hU : ∀ h ∈ U, ∀ x, some x ∈ S.calls h → x ∈ U)
+    (fuel : Nat) (st0 : St) (a : File) (haU : a ∈ U) (hwf : WF st0) (ha : a ∉ (base S st0).all.keys)
+    (hn : U.length ≤ fuel) : (loadStr S fuel st0 a).2.1 ≠ .fuel :=
+  loadStr_fuel S U hU fuel st0 a haU (hwf.base S) ha (Nat.le_trans (unl_le_length U _) hn)
+
+/-- **At most once** for a main model without file name (`a` itself stands for the parse of the string). -/
+theorem C17_str_once (S : Spec) (fuel : Nat) (st0 : St) (a : File) (hwf : WF st0) (ha : a ∉ (base S st0).all.keys) :
+    ∃ new, (loadStr S fuel st0 a).1.reads = new ++ st0.reads ∧ new.Nodup ∧
+      (∀ y ∈ new, y ∉ (base S st0).all.keys) ∧ (∀ y ∈ new, Reach S (base S st0).all.keys a y) := by
+  obtain ⟨new, h1, h2, h3, h4, _⟩ := loadStr_reads S fuel st0 a (hwf.base S) ha
+    (show loadStr S fuel st0 a = ((loadStr S fuel st0 a).1, (loadStr S fuel st0 a).2.1, (loadStr S fuel st0 a).2.2) from rfl)
+  exact ⟨new, h1, h2, h3, h4⟩
+
+/-- **Exactly once**: a successful load of a string model parses the string and opens precisely the
+non-cached import closure of the model, each file once. -/
+theorem C17_str_closure (S : Spec) (fuel : Nat) (st0 : St) (a : File) (st' : St) (j : Inst) (hwf : WF st0)
+    (ha : a ∉ (base S st0).all.keys) (h : loadStr S fuel st0 a = (st', .ok, j)) :
+    ∃ new, st'.reads = new ++ st0.reads ∧ new.Nodup ∧ ∀ y, y ∈ new ↔ Reach S (base S st0).all.keys a y := by
+  obtain ⟨new, h1, h2, _, h4, h5⟩ := loadStr_reads S fuel st0 a (hwf.base S) ha h
+  exact ⟨new, h1, h2, fun y => ⟨h4 y, h5 rfl y⟩⟩
+
+/-- **Identity** after the load of a string model: the state is well formed again (so every later load,
+through any entry point, finds each file of this load as the single instance in the shared dict), and
+the statements of `C17_identity` hold for the string model and everything it can see. -/
+theorem C17_str_identity (S : Spec) (fuel : Nat) (st0 : St) (a : File) (st' : St) (j : Inst) (hwf : WF st0)
+    (ha : a ∉ (base S st0).all.keys) (h : loadStr S fuel st0 a = (st', .ok, j)) :
+    WF st' ∧ st'.fileOf j = a ∧
+      (∀ m ∈ included st' j, ∀ e ∈ st'.loc m, st'.all.get? e.1 = some e.2 ∧ st'.fileOf e.2 = e.1) ∧
+      (∀ m m' g x x', m ∈ included st' j → m' ∈ included st' j → (g, x) ∈ st'.loc m → (g, x') ∈ st'.loc m' →
+        x = x') ∧
+      (∀ m, st0.next ≤ m → m ∈ included st' j → ∀ x n, Target.elem x n ∈ st'.tgt m →
+        x = m ∨ (st'.fileOf x, x) ∈ st'.all) := by
+  have := (loadStr_ok S fuel st0 a (hwf.base S) ha h).identity
+  rw [base_next] at this
+  exact this
+
+theorem C17_str_lookup_order (S : Spec) (fuel : Nat) (st0 : St) (a : File) (st' : St) (j : Inst) (hwf : WF st0)
+    (ha : a ∉ (base S st0).all.keys) (h : loadStr S fuel st0 a = (st', .ok, j))
+    (m : Inst) (hge : st0.next ≤ m) (hm : m ∈ included st' j) :
+    (st'.tgt m).map some = (S.refs (st'.fileOf m)).map (lookupSpec S st' m) := by
+  have hok := loadStr_ok S fuel st0 a (hwf.base S) ha h
+  exact hok.lookupOrder m (by rw [base_next]; exact hge) hm
+    (loadStr_loc S fuel st0 a (hwf.base S) ha h m hge (hok.lt m hm))
+
+/-- **Explicit pre-load** (`GlobalRepo.load_models_in_model_repo` into the global repository, or into a
+fresh repository): after success the state is well formed (every later load shares these instances),
+nothing cached is lost, every file a pattern denotes is in the repository, and over the *whole*
+pre-load every file is opened at most once, never a cached one, each opened file ends up in the
+repository and is reachable from a requested file through non-cached files. -/
+theorem C17_preload (S : Spec) (hg : S.glob = true) (fuel : Nat) (calls : List (Option File)) (st0 st' : St)
+    (hwf : WF st0) (h : preload S fuel st0 calls = (st', .ok)) :
+    WF st' ∧ (∀ k ∈ st0.all.keys, k ∈ st'.all.keys) ∧ (∀ c, some c ∈ calls → c ∈ st'.all.keys) ∧
+      ∃ new, st'.reads = new ++ st0.reads ∧ new.Nodup ∧ (∀ y ∈ new, y ∉ st0.all.keys) ∧
+        (∀ y ∈ new, y ∈ st'.all.keys) ∧ (∀ y ∈ new, ∃ c, some c ∈ calls ∧ Reach S st0.all.keys c y) :=
+  preload_spec S hg fuel calls st0 st' hwf h
 
 /-! ## non-vacuity: a cycle with a self-import, a diamond and shadowed names -/
 
@@ -173,6 +185,32 @@ example : (loadMain (exS true) 3 St.init 0).1.all = [(0, 0), (1, 1), (2, 2)] := 
 example : (loadMain (exS true) 3 St.init 0).1.loc 1 = [(2, 2), (0, 0)] := by decide
 example : (loadMain (exS true) 3 St.init 0).1.tgt 0 = [.elem 0 5, .elem 1 7, .elem 2 8, .builtin 0 9] := by decide
 example : (loadMain (exS false) 3 St.init 1).1.reads = [0, 2, 1] := by decide
+/-- the string model (invented name 3) sees files 0 and 1 through two patterns; 0 and 1 form a cycle -/
+def exT (glob : Bool) : Spec where
+  calls := fun f => match f with
+    | 0 => [some 1] | 1 => [some 0] | 3 => [some 0, some 1] | _ => []
+  defs := fun f => match f with | 0 => [5] | 1 => [6] | 3 => [7] | _ => []
+  refs := fun f => match f with | 0 => [5, 6] | 1 => [5] | 3 => [5, 6, 7] | _ => []
+  syntaxErr := fun _ => false
+  objFault := fun _ => false
+  modFault := fun _ => false
+  builtins := []
+  glob := glob
+
+example : anonKey 3 [(0, 0), (3, 1), (4, 2)] = 5 := by decide
+example : (loadStr (exT true) 3 St.init 3).2.1 = .ok := by decide
+example : (loadStr (exT true) 3 St.init 3).1.reads = [1, 0, 3] := by decide
+example : (loadStr (exT true) 3 St.init 3).1.all = [(3, 0), (0, 1), (1, 2)] := by decide
+example : (loadStr (exT true) 3 St.init 3).1.tgt 0 = [.elem 1 5, .elem 2 6, .elem 0 7] := by decide
+-- the files loaded by the string model are cached for the next load: nothing is opened again
+example : (loadMain (exT true) 3 (loadStr (exT true) 3 St.init 3).1 1).1.reads = [1, 0, 3] := by decide
+example : (loadMain (exT true) 3 (loadStr (exT true) 3 St.init 3).1 1).2.2 = 2 := by decide
+-- a string model without imports is not stored in the global repository
+example : (loadStr (exT true) 3 St.init 4).1.all = [] := by decide
+example : (preload (exS true) 3 St.init [some 2, some 0, none]).2 = .fail .io := by decide
+example : (preload (exS true) 3 St.init [some 2, some 0, some 1]).2 = .ok := by decide
+example : (preload (exS true) 3 St.init [some 2, some 0, some 1]).1.reads = [1, 0, 2] := by decide
+example : (preload (exS true) 3 St.init [some 2, some 0, some 1]).1.all = [(2, 0), (0, 1), (1, 2)] := by decide
 example : WF St.init := ⟨by simp [St.init, Dict.keys], by simp [St.init], by simp [St.init], by simp [St.init],
   by simp [St.init]⟩
 
